@@ -1206,3 +1206,257 @@ Proof.
   split; [reflexivity|]. split; [now rewrite Nat.eqb_refl|].
   intros j Hj. destruct (Nat.eqb i j) eqn:E; [apply Nat.eqb_eq in E; congruence | reflexivity].
 Qed.
+
+(* ------------------------------------------------------------------ *)
+(* Class hierarchies: dir(cls) / getattr(cls, n), redefined tunables    *)
+(* ------------------------------------------------------------------ *)
+
+Lemma body_get_name : forall b n m, body_get b n = Some m -> member_name m = n.
+Proof.
+  induction b as [|m0 b IH]; intros n m H; simpl in H; [discriminate|].
+  destruct (String.eqb (member_name m0) n) eqn:E.
+  - injection H as <-. now apply String.eqb_eq.
+  - now apply IH.
+Qed.
+
+Lemma body_get_in : forall b n m, body_get b n = Some m -> In m b.
+Proof.
+  induction b as [|m0 b IH]; intros n m H; simpl in H; [discriminate|].
+  destruct (String.eqb (member_name m0) n).
+  - injection H as <-. now left.
+  - right. now apply (IH n).
+Qed.
+
+Lemma class_getattr_name : forall mro n m, class_getattr mro n = Some m -> member_name m = n.
+Proof.
+  induction mro as [|b mro IH]; intros n m H; simpl in H; [discriminate|].
+  destruct (body_get b n) as [m'|] eqn:E.
+  - injection H as <-. now apply (body_get_name b).
+  - now apply IH.
+Qed.
+
+Lemma class_getattr_in : forall mro n m, class_getattr mro n = Some m ->
+  exists b, In b mro /\ In m b.
+Proof.
+  induction mro as [|b mro IH]; intros n m H; simpl in H; [discriminate|].
+  destruct (body_get b n) as [m'|] eqn:E.
+  - injection H as <-. exists b. split; [now left | now apply (body_get_in b n)].
+  - destruct (IH n m H) as [b' [H1 H2]]. exists b'. split; [now right | assumption].
+Qed.
+
+(* attribute lookup on the class: the first class of the MRO that binds the name *)
+Lemma class_getattr_first : forall pre C post n m,
+  (forall b, In b pre -> body_get b n = None) -> body_get C n = Some m ->
+  class_getattr (pre ++ C :: post) n = Some m.
+Proof.
+  induction pre as [|b pre IH]; intros C post n m Hpre HC; simpl.
+  - now rewrite HC.
+  - rewrite (Hpre b (or_introl eq_refl)). apply IH; [|assumption].
+    intros b' Hb'. apply Hpre. now right.
+Qed.
+
+Lemma dedup_in : forall l x, In x (dedup l) <-> In x l.
+Proof.
+  induction l as [|y l IH]; intros x; simpl; [tauto|].
+  destruct (existsb (String.eqb y) l) eqn:E.
+  - rewrite IH. split; [now right|]. intros [<-|H]; [|assumption].
+    apply existsb_exists in E as [z [Hz Ez]]. apply String.eqb_eq in Ez. now subst.
+  - simpl. rewrite IH. tauto.
+Qed.
+
+Lemma dedup_nodup : forall l, NoDup (dedup l).
+Proof.
+  induction l as [|y l IH]; simpl; [constructor|].
+  destruct (existsb (String.eqb y) l) eqn:E; [assumption|].
+  constructor; [|assumption]. intro H. apply dedup_in in H.
+  assert (existsb (String.eqb y) l = true); [|congruence].
+  apply existsb_exists. exists y. split; [assumption | apply String.eqb_refl].
+Qed.
+
+Lemma insert_sorted_in : forall x l y, In y (insert_sorted x l) <-> y = x \/ In y l.
+Proof.
+  induction l as [|z l IH]; intros y; simpl.
+  - split; [intros [<-|[]]; now left | intros [->|[]]; now left].
+  - destruct (String.leb x z); simpl.
+    + split; [intros [<-|H]; [now left | now right] | intros [->|H]; [now left | now right]].
+    + rewrite IH. split; [intros [<-|[->|H]] | intros [->|[<-|H]]]; auto.
+Qed.
+
+Lemma insert_sorted_nodup : forall x l, ~ In x l -> NoDup l -> NoDup (insert_sorted x l).
+Proof.
+  induction l as [|z l IH]; intros Hx Hl; simpl.
+  - constructor; [intros [] | constructor].
+  - destruct (String.leb x z).
+    + constructor; assumption.
+    + inversion Hl as [|z' l' Hz Hl']. subst. constructor.
+      * intro H. apply insert_sorted_in in H as [->|H]; [apply Hx; now left | contradiction].
+      * apply IH; [|assumption]. intro H. apply Hx. now right.
+Qed.
+
+Lemma sort_names_in : forall l x, In x (sort_names l) <-> In x l.
+Proof.
+  induction l as [|y l IH]; intros x; simpl; [tauto|].
+  rewrite insert_sorted_in, IH. split; [intros [->|H] | intros [<-|H]]; auto.
+Qed.
+
+Lemma sort_names_nodup : forall l, NoDup l -> NoDup (sort_names l).
+Proof.
+  induction l as [|y l IH]; intros H; simpl; [constructor|].
+  inversion H as [|y' l' Hy Hl]. subst.
+  apply insert_sorted_nodup; [|now apply IH]. intro Hin. apply Hy. now apply sort_names_in.
+Qed.
+
+(* dir(cls) lists every name bound anywhere in the hierarchy, once *)
+Lemma dir_names_in : forall mro n,
+  In n (dir_names mro) <-> exists b m, In b mro /\ In m b /\ member_name m = n.
+Proof.
+  intros mro n. unfold dir_names. rewrite sort_names_in, dedup_in, in_flat_map. split.
+  - intros [b [Hb Hn]]. apply in_map_iff in Hn as [m [Hm Hin]]. now exists b, m.
+  - intros [b [m [Hb [Hm Hn]]]]. exists b. split; [assumption|]. apply in_map_iff. now exists m.
+Qed.
+
+Lemma dir_names_nodup : forall mro, NoDup (dir_names mro).
+Proof. intros. unfold dir_names. apply sort_names_nodup, dedup_nodup. Qed.
+
+(* the loop head of setup_tunables picks, per name, exactly the tunable that
+   attribute lookup on the class finds *)
+Theorem class_members_char : forall mro d,
+  In d (class_members mro) <-> class_getattr mro (d_attr d) = Some (MTun d).
+Proof.
+  intros mro d. unfold class_members. rewrite in_flat_map. split.
+  - intros [n [Hn Hd]]. destruct (class_getattr mro n) as [[d'|p]|] eqn:E; try destruct Hd.
+    + subst d'. pose proof (class_getattr_name _ _ _ E) as Hname. simpl in Hname. now subst n.
+    + destruct H.
+  - intros H. exists (d_attr d). split.
+    + apply dir_names_in. destruct (class_getattr_in _ _ _ H) as [b [Hb Hm]]. now exists b, (MTun d).
+    + rewrite H. now left.
+Qed.
+
+Lemma NoDup_map_flat_map : forall (A B C : Type) (f : A -> list B) (g : B -> C) (key : A -> C) l,
+  (forall a b, In b (f a) -> g b = key a) ->
+  (forall a, NoDup (map g (f a))) ->
+  NoDup (map key l) -> NoDup (map g (flat_map f l)).
+Proof.
+  induction l as [|a l IH]; intros Hk Hf Hl; simpl; [constructor|].
+  inversion Hl as [|x m Hn Hd]. subst. rewrite map_app.
+  assert (Hr : NoDup (map g (flat_map f l))) by now apply IH.
+  revert Hr. generalize (Hf a). generalize (Hk a).
+  induction (f a) as [|b fa IHa]; intros Hka Hfa Hr; simpl; [assumption|].
+  inversion Hfa as [|x m Hnb Hdb]. subst. constructor.
+  - intro Hin. apply in_app_or in Hin as [Hin|Hin]; [contradiction|].
+    apply in_map_iff in Hin as [b' [Eb Hb']]. apply in_flat_map in Hb' as [a' [Ha' Hb']].
+    apply Hn. apply in_map_iff. exists a'. split; [|assumption].
+    rewrite <- (Hk a' b' Hb'), Eb. apply Hka. now left.
+  - apply IHa; [|assumption|assumption]. intros b' Hb'. apply Hka. now right.
+Qed.
+
+(* one tunable per attribute name, however often the name is redefined *)
+Theorem class_members_nodup : forall mro, NoDup (map d_attr (class_members mro)).
+Proof.
+  intros mro. unfold class_members.
+  apply (NoDup_map_flat_map _ _ _ _ d_attr (fun n : string => n)).
+  - intros n d Hd. destruct (class_getattr mro n) as [[d'|p]|] eqn:E; try destruct Hd.
+    + subst d'. apply (class_getattr_name _ _ _ E).
+    + destruct H.
+  - intros n. destruct (class_getattr mro n) as [[d'|p]|]; simpl; repeat constructor. intros [].
+  - rewrite map_id. apply dir_names_nodup.
+Qed.
+
+Lemma class_members_in_body : forall mro d, In d (class_members mro) ->
+  exists b, In b mro /\ In (MTun d) b.
+Proof.
+  intros mro d H. apply class_members_char in H. apply (class_getattr_in _ _ _ H).
+Qed.
+
+(* a redefinition shadows: with the classes before C in the MRO not binding
+   the name and C binding it to the tunable d, the class has d under that name
+   and nothing else -- whatever the classes after C bind it to *)
+Theorem redefinition_shadows : forall pre C post d,
+  (forall b, In b pre -> body_get b (d_attr d) = None) ->
+  body_get C (d_attr d) = Some (MTun d) ->
+  class_getattr (pre ++ C :: post) (d_attr d) = Some (MTun d) /\
+  In d (class_members (pre ++ C :: post)) /\
+  forall d', In d' (class_members (pre ++ C :: post)) -> d_attr d' = d_attr d -> d' = d.
+Proof.
+  intros pre C post d Hpre HC.
+  pose proof (class_getattr_first pre C post _ _ Hpre HC) as Hg.
+  split; [assumption|]. split; [now apply class_members_char|].
+  intros d' Hd' E. apply class_members_char in Hd'. rewrite E, Hg in Hd'. now injection Hd'.
+Qed.
+
+(* a name the class resolves to something that is not a tunable is not bound,
+   even when a base class declares a tunable of that name *)
+Theorem plain_member_shadows : forall mro n,
+  class_getattr mro n = Some (MPlain n) ->
+  forall d, In d (class_members mro) -> d_attr d <> n.
+Proof.
+  intros mro n H d Hd E. apply class_members_char in Hd. rewrite E, H in Hd. discriminate.
+Qed.
+
+Lemma class_topics_all_ok : forall cls,
+  (forall d, In d cls -> exists t, decl_topic (d_default d) (d_hint d) = Ok t) ->
+  exists ds, class_topics cls = Some ds.
+Proof.
+  induction cls as [|d cls IH]; intros H; simpl; [now eexists|].
+  destruct (H d (or_introl eq_refl)) as [t ->].
+  destruct IH as [ds ->]; [intros d' Hd'; apply H; now right|]. now eexists.
+Qed.
+
+Lemma body_decls_in : forall b d, In d (body_decls b) <-> In (MTun d) b.
+Proof.
+  intros b d. unfold body_decls. rewrite in_flat_map. split.
+  - intros [[d'|n] [Hm Hd]]; destruct Hd as [<-|[]]. assumption.
+  - intros H. exists (MTun d). split; [assumption | now left].
+Qed.
+
+(* when every class statement of the hierarchy executes, setup succeeds *)
+Theorem hierarchy_setup_succeeds : forall w i mro p c,
+  hier_defined mro = true -> snd (step w (setup_class i mro p c)) = EvSetup true.
+Proof.
+  intros w i mro p c H. unfold setup_class.
+  destruct (class_topics_all_ok (class_members mro)) as [ds Hds].
+  - intros d Hd. destruct (class_members_in_body _ _ Hd) as [b [Hb Hm]].
+    unfold hier_defined in H. rewrite forallb_forall in H. specialize (H b Hb).
+    destruct (class_topics (body_decls b)) as [l|] eqn:E; [|discriminate].
+    destruct (class_topics_in _ _ d E) as [t [_ Ht]]; [now apply body_decls_in|]. now exists t.
+  - now rewrite (step_setup w i _ p c ds Hds).
+Qed.
+
+(* setup of an instance of a class with redefinitions: the tunable that
+   attribute lookup finds under the name is bound at the documented key, and
+   ITS default and ITS writeDefault flag decide what the topic holds *)
+Theorem setup_hierarchy : forall w i mro p c d,
+  (forall b m, In b mro -> In m b -> no_slash (member_name m) = true) ->
+  class_getattr mro (d_attr d) = Some (MTun d) -> public d = true ->
+  snd (step w (setup_class i mro p c)) = EvSetup true ->
+  exists b ty, inst_get (w_inst (fst (step w (setup_class i mro p c)))) i = Some b /\
+    decl_topic (d_default d) (d_hint d) = Ok ty /\
+    bind_get b (d_attr d) = Some (key_of p c (d_subtable d) (d_attr d), ty, canon (d_default d)) /\
+    nt_get (w_nt (fst (step w (setup_class i mro p c)))) (key_of p c (d_subtable d) (d_attr d)) =
+    if d_wd d then Some (ty, canon (d_default d))
+    else match nt_get (w_nt w) (key_of p c (d_subtable d) (d_attr d)) with
+         | Some tv => Some tv
+         | None => Some (ty, canon (d_default d))
+         end.
+Proof.
+  intros w i mro p c d Hns Hg Hpub Hok. unfold setup_class in *.
+  apply class_members_char in Hg.
+  destruct (setup_binds w i _ p c d (class_members_nodup mro) Hg Hpub Hok) as [b [ty [Hb [Hty Hbind]]]].
+  destruct (setup_write_default w i _ p c d (class_members_nodup mro)) as [ty' [Hty' Hwd]];
+    try assumption.
+  - intros d' Hd'. destruct (class_members_in_body _ _ Hd') as [b' [Hb' Hm]].
+    apply (Hns b' (MTun d') Hb' Hm).
+  - rewrite Hty in Hty'. injection Hty' as <-. now exists b, ty.
+Qed.
+
+(* what such a setup must not touch: every topic that is not the key of a
+   tunable the class resolves a public name to -- in particular the key a
+   shadowed definition (other subtable) would have had *)
+Theorem setup_hierarchy_untouched : forall w i mro p c k,
+  (forall d, class_getattr mro (d_attr d) = Some (MTun d) -> public d = true ->
+             key_of p c (d_subtable d) (d_attr d) <> k) ->
+  nt_get (w_nt (fst (step w (setup_class i mro p c)))) k = nt_get (w_nt w) k.
+Proof.
+  intros w i mro p c k H. unfold setup_class. apply setup_untouched.
+  intros d Hd. apply H. now apply class_members_char.
+Qed.
